@@ -6,5 +6,5 @@ CONSTANTS
   Ns = {2,3,4}
   Reps = {10,25}
   Lock = TRUE
-INVARIANTS Deterministic NoFault PrefixOK MutexSound Emit
-CHECK_DEADLOCK TRUE
+INVARIANTS Deterministic NoFault NoWedge PrefixOK MutexSound Emit
+CHECK_DEADLOCK FALSE
